@@ -291,6 +291,71 @@ def main():
         raise ValueError("unrecognised _subscribe")
     g.attempt("fab.subscribeKeepsOthers", True, subscribe_keeps)
 
+    # ---- active object: timed sources ---------------------------------------
+    AO = find_class(ao, "ActiveObject")
+
+    def ao_method(name):
+        for n in AO.body:
+            if isinstance(n, ast.FunctionDef) and n.name == name:
+                return n
+        raise KeyError(name)
+
+    def check_before_start():
+        fn = ao_method("__post_event")
+        starts = [n for n in ast.walk(fn) if isinstance(n, ast.Call) and unparse(n.func) == "thread.start"]
+        if len(starts) != 1:
+            raise ValueError("__post_event: expected exactly one thread.start()")
+        guards = [n for n in ast.walk(fn) if isinstance(n, ast.If) and "len(self.posted_events_queue) <" in unparse(n.test)]
+        if len(guards) != 1:
+            raise ValueError("__post_event: capacity test not found")
+        inside = any(n is starts[0] for st in guards[0].body for n in ast.walk(st))
+        if inside:
+            return True
+        if starts[0].lineno < guards[0].lineno:
+            return False
+        raise ValueError("__post_event: thread.start() is neither before nor inside the capacity test")
+    g.attempt("ao.checkBeforeStart", True, check_before_start)
+
+    def cancel_eq():
+        res = []
+        for name, lhs in (("cancel_event", "posted_event_task_meta_data.uuid"),
+                          ("cancel_events", "posted_event_task_meta_data.signal_name")):
+            fn = ao_method(name)
+            cmps = [n for n in ast.walk(fn) if isinstance(n, ast.Compare) and unparse(n.left) == lhs]
+            if len(cmps) != 1:
+                raise ValueError("%s: comparison of %s not found" % (name, lhs))
+            op = cmps[0].ops[0]
+            if isinstance(op, ast.Eq):
+                res.append(True)
+            elif isinstance(op, ast.Is):
+                res.append(False)
+            else:
+                raise ValueError("%s: unexpected comparison operator" % name)
+        if res[0] != res[1]:
+            raise ValueError("cancel_event and cancel_events compare differently")
+        return res[0]
+    g.attempt("ao.cancelEq", True, cancel_eq)
+
+    def cancel_locked():
+        fn = ao_method("__post_event")
+        runner = find_func(fn, "post_event_thread_runner")
+        withs = [n for n in ast.walk(runner) if isinstance(n, ast.With) and "task_lock" in unparse(n.items[0])]
+        cw = []
+        for name in ("cancel_event", "cancel_events"):
+            f = ao_method(name)
+            w = [n for n in ast.walk(f) if isinstance(n, ast.With) and "task_lock" in unparse(n.items[0])
+                 and "task_run_event.clear()" in unparse(n)]
+            cw.append(len(w) == 1)
+        if len(withs) == 1 and all(cw):
+            body = unparse(withs[0])
+            if "task_run_event.is_set()" in body and "self.post_fifo(spec.event)" in body and "self.post_lifo(spec.event)" in body:
+                return True
+            raise ValueError("timer runner: the lock does not cover both the flag test and the post")
+        if len(withs) == 0 and not any(cw):
+            return False
+        raise ValueError("timer runner / cancel functions use the source lock inconsistently")
+    g.attempt("ao.cancelLocked", True, cancel_locked)
+
     # ---- emit -------------------------------------------------------------
     v = g.values
     def b(x):
@@ -302,6 +367,7 @@ def main():
     lines.append("import MirosModel.Hsm.Model")
     lines.append("import MirosModel.Conc.LockingDeque")
     lines.append("import MirosModel.Conc.Fabric")
+    lines.append("import MirosModel.Conc.AO")
     lines.append("namespace Miros.Gen")
     lines.append("def retStatus : List (String × Nat) := " + table(v["retStatus"]))
     lines.append("def signalTable : List (String × Nat) := " + table(v["innerSignals"]))
@@ -318,6 +384,8 @@ def main():
                      v["fab.feOrder"], v["fab.lifoDeliver"], b(v["fab.startKeepsHandles"]), b(v["fab.clearInPlace"]),
                      b(v["fab.subscribeKeepsOthers"])))
     lines.append("def fifoDeliverPlain : Bool := " + b(v["fab.fifoDeliverPlain"]))
+    lines.append("def aoTags : Miros.Conc.AO.Tags := { checkBeforeStart := %s, cancelEq := %s, cancelLocked := %s }" % (
+        b(v["ao.checkBeforeStart"]), b(v["ao.cancelEq"]), b(v["ao.cancelLocked"])))
     lines.append("end Miros.Gen")
     text = "\n".join(lines) + "\n"
     os.makedirs(os.path.dirname(OUT), exist_ok=True)
